@@ -19,7 +19,7 @@ def run(sid):
             shutil.copy(os.path.join("/verif", f), os.path.join(tmp, f))
         shutil.copytree("/verif/replay", os.path.join(tmp, "replay"))
         c = subprocess.run(["/verif/bin/govc", "check", prop, "--repo", repo, "--evidence", os.path.join(tmp, "ev")], capture_output=True, text=True, env=env)
-        obls = [l.replace(tmp, "<scratch>") for l in c.stdout.splitlines() if l.startswith("FAILED-OBLIGATION") or l.startswith("VIOLATION")]
+        obls = [l.replace(tmp, "<scratch>") for l in c.stdout.splitlines() if l.startswith("FAILED-OBLIGATION") or l.startswith("FAILED-BOUNDED-CHECK") or l.startswith("VIOLATION")]
         meta["check_detects"] = c.returncode != 0
         meta["check_output"] = obls[:6]
         json.dump(meta, open(os.path.join(d, "meta.json"), "w"), indent=1)
